@@ -217,6 +217,19 @@ def skeleton(fn, indent_name='indent', env=None, choose=None, unroll=None, on_it
                 return a + b
         return None
 
+    tlocals = {}     # template-level locals set in <% %> blocks: what they stand for is substituted where they are emitted (dest_range = helper.get_parallel_range(group))
+
+    def subst(e):
+        if not tlocals:
+            return e
+
+        class Sub(ast.NodeTransformer):
+            def visit_Name(self, n):
+                if isinstance(n.ctx, ast.Load) and n.id in tlocals:
+                    return ast.copy_location(ast.parse(ast.unparse(tlocals[n.id]), mode='eval').body, n)
+                return n
+        return ast.fix_missing_locations(Sub().visit(ast.parse(ast.unparse(e), mode='eval').body))
+
     def walk(stmts, guards, loops):
         for s in stmts:
             if is_emit(s, '__text__'):
@@ -229,7 +242,7 @@ def skeleton(fn, indent_name='indent', env=None, choose=None, unroll=None, on_it
                         mark(s, guards, loops, i)
                         cur['text'] += p
             elif is_emit(s, '__expr__'):
-                e = emitted_expr(s)
+                e = subst(emitted_expr(s))
                 if isinstance(e, ast.Call) and isinstance(e.func, ast.Name) and e.func.id == indent_name \
                         and len(e.args) >= 1:
                     lvl = const_int(e.args[1]) if len(e.args) > 1 else 0
@@ -290,8 +303,14 @@ def skeleton(fn, indent_name='indent', env=None, choose=None, unroll=None, on_it
                 v = const_int(s.value)
                 if v is not None:
                     consts[s.targets[0].id] = v
+                    tlocals.pop(s.targets[0].id, None)
                 else:
                     consts.pop(s.targets[0].id, None)
+                    # a name for an expression over the template's arguments (no emission involved)
+                    if not any(isinstance(x, ast.Name) and x.id == s.targets[0].id for x in ast.walk(s.value)):
+                        tlocals[s.targets[0].id] = subst(s.value)
+                    else:
+                        tlocals.pop(s.targets[0].id, None)
             elif isinstance(s, ast.AugAssign) and isinstance(s.target, ast.Name):
                 v = const_int(s.value)
                 if s.target.id in consts and v is not None and isinstance(s.op, (ast.Add, ast.Sub)):
